@@ -6,6 +6,7 @@ import PasfmtModel.Model.Contracts
 import PasfmtModel.Proofs.LexBoundaries
 import PasfmtModel.Proofs.MlsSim
 import PasfmtModel.Proofs.CaseConfined
+import PasfmtModel.Proofs.WrapStageProps
 
 namespace Pasfmt.C01
 
@@ -59,6 +60,15 @@ theorem C01_format (cfg : Config) (O : Oracles) (s : Bytes) (hv : ValidUtf8 s) (
 theorem C01_format_exact (cfg : Config) (O : Oracles) (s : Bytes) (hv : ValidUtf8 s) (hW : WrapExact O) :
     ∃ out, format cfg O s = some out ∧ foldStrip out = foldStrip s :=
   C01_format cfg O s hv hW.frame
+
+/-- **C01 for every search of the line wrapper.**  The wrapper stage is the exact model of
+    `OptimisingLineFormatter::format` around an arbitrary search (`Model/WrapStage.lean`: applying solutions, the
+    string passes, which lines are re-wrapped, the removal of spaces at line starts; compared with the real stage on
+    every case, fields `wp`, `wcn`).  Whatever solutions the search returns, for every parser behaviour: the output
+    has the input's non-blank characters, in order, up to ASCII case.  No wrapper contract is assumed. -/
+theorem C01_format_any_search (cfg : Config) (O : Oracles) (solve : Nat → Nat → Option Sol) (s : Bytes) (hv : ValidUtf8 s) :
+    ∃ out, format cfg (O.withSolver solve) s = some out ∧ foldStrip out = foldStrip s :=
+  C01_format cfg (O.withSolver solve) s hv (wrapFrame_of_solver O solve)
 
 /-- the reconstructor emits every token's content exactly once, in order, separated by blank-only
     gaps — for **every** assignment of whitespace counters and every ignored-set -/
